@@ -11,6 +11,7 @@ import (
 
 	"gorm.io/gorm/clause"
 	"gorm.io/gorm/logger"
+	"gorm.io/gorm/utils/verifhook"
 )
 
 type callbackType string
@@ -328,6 +329,7 @@ func ParseWithSpecialTableName(dest interface{}, cacheStore *sync.Map, namer Nam
 		<-s.initialized
 		return s, s.err
 	}
+	verifhook.At("schema.stored", schema)
 
 	defer func() {
 		if schema.err != nil {
